@@ -286,6 +286,46 @@ func runC10(r *vk.Run) {
 			c.Sample("identity", map[string]any{"query": text, "label_sets": len(sets), "records": len(recs), "first_labels": recs[0].Labels})
 		}
 	})
+	// label values that are numbers with more digits than a float64 holds (ids from `| json`): different
+	// numbers are different label values, hence different series
+	r.Phase("bigintlabels", r.N(60, 3000), func(c *vk.Case) {
+		rng := c.Rng
+		ids := []string{"9007199254740993", "9007199254740992", "9007199254740994", "18014398509481985", "18014398509481984", "1234567890123456789", "1234567890123456788", "42", "-9007199254740993", "-9007199254740992"}
+		count := map[string]int{}
+		var recs []Rec
+		for i := 0; i < rng.Range(6, 20); i++ {
+			id := vk.Pick(rng, ids)
+			count[id]++
+			recs = append(recs, Rec{TS: metricT0 + int64(i)*1e8 + 5e8, Line: fmt.Sprintf(`{"user_id":%s,"k":"v"}`, id), Labels: map[string]string{"app": "x"}})
+		}
+		T := metricT0 + 10e9
+		for _, q := range []string{`sum by (user_id) (count_over_time({app="x"} | json [1h]))`, `count_over_time({app="x"} | json | drop msg [1h])`, `sum by (user_id) (count_over_time({app="x"} | json user_id [1h]))`} {
+			res, err := evalQuery(&MemQuerier{Recs: recs, ErrAfter: -1}, q, EvalP{Start: T, End: T})
+			c.Eval(1)
+			det := map[string]any{"query": q, "records": recs, "result": res}
+			if err != nil {
+				c.Fail("", q+": "+err.Error(), det)
+				return
+			}
+			seen := map[string]bool{}
+			for _, sr := range res.Series {
+				id := sr.Labels["user_id"]
+				if seen[id] || len(sr.Points) != 1 || int(sr.Points[0].V+0.5) != count[id] {
+					c.Fail("", fmt.Sprintf("%s: series user_id=%q = %v; the log holds %d records with that id (%d distinct ids in all, %d series returned)", q, id, sr.Points, count[id], len(count), len(res.Series)), det)
+					return
+				}
+				seen[id] = true
+			}
+			if len(seen) != len(count) {
+				c.Fail("", fmt.Sprintf("%s: %d series for %d distinct ids", q, len(seen), len(count)), det)
+				return
+			}
+			c.Count("big_integer_label_series", len(seen))
+		}
+		c.Nontrivial(fmt.Sprintf("bigintlabels|%d", c.Idx))
+	})
+	r.Require("big_integer_label_series", 300)
+
 	// many series at once: more groups than any small fixed capacity (8, 16, 32), and -- every fifth case --
 	// more label entries in one range aggregation than any chunk a sampler may carve label sets from (2500+
 	// records of 4 labels). Each series is still exactly the samples that carry its label set
